@@ -441,7 +441,8 @@ func (c *Ctx) RequireErrProp(rule string, f *ssa.Function, withAnon bool, keys .
 	}
 	c.funcsSeen[f] = true
 	for _, k := range keys {
-		sites := callsTo(f, withAnon, k)
+		// "A | B": the callee may be reached under either name (a thin wrapper or what it wraps)
+		sites := callsTo(f, withAnon, strings.Split(k, " | ")...)
 		key := fname(f) + " errprop " + k
 		if len(sites) == 0 {
 			c.Require(rule, key, false, "no call to %s in %s", k, fname(f))
